@@ -218,6 +218,15 @@ theorem C10_fence_line_read_back (n : Nat) (hn : 3 ≤ n) (lang : Line) (hl : La
   obtain ⟨c, h1, h2⟩ := fence_line_reread n hn lang hl cfg
   exact ⟨c, by rw [extractCodeBlockStart_eq, h1], h2⟩
 
+/-- … also a configuration that holds a backtick (the fence recogniser looks for a backtick only
+in front of the first `{`; between the fix "the info string of a fence holds no backtick" and its
+follow-up this line was read as prose): the fence line written for the configuration text
+`environment: {K: "`"}` is read back. -/
+theorem C10_fence_line_backtick_config_read_back :
+    extractCodeBlockStart (backticks 3 ++ "scrut".toList ++ configSuffix [(0, "environment: {K: \"`\"}".toList)])
+      = .ok (some (backticks 3, "scrut".toList, "{environment: {K: \"`\"}}".toList)) := by
+  rfl
+
 /-- No line of a generated text starts with the fence that `update` chooses for its block
 (`max_backtick_size + 1` backticks): the text cannot close its own block early. -/
 theorem C10_fence_safe (g : List Char) :
